@@ -4,8 +4,10 @@
   State threaded through everything (`MSt`): the allocation counter, the log of objects written to
   (`AddNode` / `SetNodes` targets), a sticky out-of-fuel flag for the nested recursion
   MergeNodes → MergeNodeSlices → EqualityMergeFunction → MergeNodes (see `mergeNodesF`) and a
-  sticky `panicked` flag: `DeepCopy` panics ("cannot create Husband without a family") when its
-  walk reaches a HUSB / WIFE / CHIL node before any FAM node (`famWalk`, Gedcom/Model/Ident.lean).
+  sticky `panicked` flag: in the unrepaired code `DeepCopy` panics ("cannot create Husband without
+  a family") when its walk reaches a HUSB / WIFE / CHIL node before any FAM node; the repaired
+  code seeds the family from the node (`copySeeds`, regenerated).  The state also logs what the
+  call adds to the destination document (`famAdds`: `document.AddFamily` inside Filter).
   The Go call is aborted by the panic; the model keeps computing and the outcome of the whole
   call is `panic` when the flag is set (`mergeNodes`, `mergeNodeSlicesO`).
 
@@ -43,26 +45,100 @@ structure MSt where
   writes : List Nat
   oof : Bool
   panicked : Bool := false
+  /-- pointers passed to `document.AddFamily` on the destination document, in order: every
+      DeepCopy walk adds one empty `0 @ptr@ FAM` record per source family whose HUSB / WIFE /
+      CHIL nodes it copies (filter.go:61) -/
+  famAdds : List Str := []
+  /-- the family a HUSB / WIFE / CHIL object belongs to (`FamilyNoder.Family()`): object id ↦
+      (key of the family object, its pointer).  Keys are object id + 1; key 0 = unknown.  Given
+      for the inputs by the caller, extended for every role node the call copies. -/
+  famOf : List (Nat × Nat × Str) := []
 deriving Repr
 
-/-- `DeepCopy(n, document)` panics: a HUSB / WIFE / CHIL node is reached before any FAM node -/
+/-- `DeepCopy(n, document)` panics in the unrepaired code: a HUSB / WIFE / CHIL node is reached
+    before any FAM node -/
 def copyPanics (n : INode) : Bool := (famWalk none [] n).isNone
+
+/-- DeepCopy seeds its family cursor from `FamilyNoder.Family()` when it meets a HUSB / WIFE /
+    CHIL node before any FAM node (copy.go, repair "a role node copied on its own keeps its
+    family"); regenerated from the code by a probe.  When false such a walk panics. -/
+def copySeeds : Bool := Generated.deepCopySeedsFamily
+
+/-- state of the family bookkeeping of one DeepCopy walk -/
+structure FW where
+  /-- the closure variable `family` of DeepCopy: (key, pointer) of the source family -/
+  fam : Option (Nat × Str)
+  /-- `entityMap` of Filter: source family key ↦ key of the family added to the destination -/
+  seen : List (Nat × Nat)
+  /-- preorder position of the node being visited (its copy gets id `base + pos`) -/
+  pos : Nat
+  /-- next unused object id (families added to the destination are objects too) -/
+  key : Nat
+  adds : List Str
+  /-- copied role node (by position) ↦ (key, pointer) of its destination family -/
+  links : List (Nat × Nat × Str)
+  ok : Bool
+deriving Repr
+
+/-- what the walk of `DeepCopy` / `Filter` does at one node (object `i`, tag `t`, pointer `p`)
+    before it descends into the children, as far as families are concerned -/
+def fwStep (seeds : Bool) (env : List (Nat × Nat × Str)) (w : FW) (i : Nat) (t p : Str) : FW :=
+  if t == tagFAM then { w with fam := some (i + 1, p), pos := w.pos + 1 }
+  else if needsFamily t then
+    let fam1 : Option (Nat × Str) :=
+      match w.fam with
+      | some f => some f
+      | none => if seeds then some ((env.lookup i).getD (0, [])) else none
+    match fam1 with
+    | none => { w with ok := false, pos := w.pos + 1 }
+    | some (k, fp) =>
+      match w.seen.lookup k with
+      | some dk => { w with fam := fam1, links := w.links ++ [(w.pos, dk, fp)], pos := w.pos + 1 }
+      | none =>
+        { w with fam := fam1, seen := (k, w.key + 1) :: w.seen, adds := w.adds ++ [fp],
+                 links := w.links ++ [(w.pos, w.key + 1, fp)], key := w.key + 1, pos := w.pos + 1 }
+  else { w with pos := w.pos + 1 }
+
+mutual
+/-- the walk of `DeepCopy` / `Filter` over a tree, preorder -/
+def fwNode (seeds : Bool) (env : List (Nat × Nat × Str)) (w : FW) : INode → FW
+  | .mk i t _ p ks => fwList seeds env (fwStep seeds env w i t p) ks
+def fwList (seeds : Bool) (env : List (Nat × Nat × Str)) (w : FW) : List INode → FW
+  | [] => w
+  | k :: ks => fwList seeds env (fwNode seeds env w k) ks
+end
+
+/-- the effect of finished walks on the state; `base` = id of the copy at position 0 -/
+def MSt.afterWalk (st : MSt) (base : Nat) (writes : List Nat) (w : FW) : MSt :=
+  { st with next := w.key, writes := st.writes ++ writes, panicked := st.panicked || !w.ok,
+            famAdds := st.famAdds ++ w.adds,
+            famOf := st.famOf ++ w.links.map fun l => (base + l.1, l.2) }
 
 /-- `DeepCopy(n, document)` in the state -/
 def copyM (n : INode) (st : MSt) : INode × MSt :=
   let r := copyTree st.next n
-  (r.1, { st with next := r.2.1, writes := st.writes ++ r.2.2,
-                  panicked := st.panicked || copyPanics n })
+  let w := fwNode copySeeds st.famOf ⟨none, [], 0, r.2.1, [], [], true⟩ n
+  (r.1, st.afterWalk st.next r.2.2 w)
+
+/-- separate DeepCopy walks over the children of a node whose copy sits at position `pos - 1`
+    (`for _, grandChild := range child.Nodes() { n.AddNode(DeepCopy(grandChild, document)) }`) -/
+def fwKids (seeds : Bool) (env : List (Nat × Nat × Str)) (w : FW) : List INode → FW
+  | [] => w
+  | k :: ks => fwKids seeds env (fwNode seeds env { w with fam := none, seen := [] } k) ks
 
 /-- `copyChildFor(parent, child, document)` (merge.go:99): a HUSB / WIFE / CHIL child of a FAM
-    parent is created for that family with `newNode` and its children are deep-copied one by one;
-    everything else goes through `DeepCopy`.  Objects and values are those of the `DeepCopy` walk
-    (one new object per source node, preorder); only the panic condition differs. -/
+    parent is created for that family with `newNode` (no family is added to the destination; the
+    copy belongs to the merged family — an object nothing in the call walks again, so its link is
+    not recorded) and its children are deep-copied one by one; everything else goes through
+    `DeepCopy`.  Objects and values are those of the `DeepCopy` walk (one new object per source
+    node, preorder); only the family bookkeeping differs. -/
 def copyChildM (parentTag : Str) (child : INode) (st : MSt) : INode × MSt :=
   let r := copyTree st.next child
-  let p := if parentTag == tagFAM && needsFamily child.tag then child.kids.any copyPanics
-           else copyPanics child
-  (r.1, { st with next := r.2.1, writes := st.writes ++ r.2.2, panicked := st.panicked || p })
+  let w0 : FW := ⟨none, [], 0, r.2.1, [], [], true⟩
+  let w := if parentTag == tagFAM && needsFamily child.tag
+           then fwKids copySeeds st.famOf { w0 with pos := 1 } child.kids
+           else fwNode copySeeds st.famOf w0 child
+  (r.1, st.afterWalk st.next r.2.2 w)
 
 def copyIf (flag : Bool) (n : INode) (st : MSt) : INode × MSt :=
   if flag then copyM n st else (n, st)
